@@ -97,7 +97,6 @@ class _Expanded(ast.Call):
 
 _UNSET = object()
 INT_STR_LIMIT_HITS: list = []  # conversions that ran into CPython's 4300-digit limit during the current evaluation
-_DIRECT_ARGS: set = set()  # ids of generator expressions written directly as call arguments (consumed by the callee at once)
 
 
 class _LazyGen(Abstract):
@@ -476,6 +475,12 @@ class Folder:
             _CURRENT.pop()
 
     def _fold(self, e: ast.expr) -> Any:
+        if isinstance(e, ast.Call):
+            for a_ in e.args:
+                if isinstance(a_, ast.GeneratorExp):
+                    # written directly as an argument: consumed by the callee at once (marked on the node itself, before any
+                    # hook looks at the call: ids are reused once a tree is freed)
+                    a_._sa_direct_arg = True  # type: ignore
         if self.hook is not None:
             if isinstance(e, ast.Call) and any(isinstance(a, ast.Starred) for a in e.args) and not isinstance(e, _Expanded):
                 # the rules' hooks model calls by their positional arguments: they are shown `f(*xs, y)` with the unpacked
@@ -697,7 +702,7 @@ class Folder:
                 else:
                     return "<fstring>"
             return "".join(parts)
-        if isinstance(e, ast.GeneratorExp) and id(e) not in _DIRECT_ARGS:
+        if isinstance(e, ast.GeneratorExp) and not getattr(e, "_sa_direct_arg", False):
             # a generator expression that is kept (assigned, collected, returned) rather than handed straight to a call: its
             # outermost iterable is evaluated now, everything else when it is first consumed - with the bindings of *then*
             g0 = e.generators[0]
@@ -815,7 +820,15 @@ class Folder:
             if id(r) in PROCESS_STATE:
                 return PROCESS_STATE[id(r)][1]
             owner = self._owner_module(e)
-            v_mod = Folder(self.env, self.repo, owner, None, self.hook).fold(r)
+            owner_cls = None
+            if isinstance(e, ast.Attribute):
+                # `K.TABLE`: the names in the table's expression are those of the body of the class that assigns it
+                b_ = self.repo.resolve_expr(self.mod, e.value, self.cls)
+                if isinstance(b_, ClassInfo):
+                    owner_cls = next((k_ for k_ in self.repo.mro(b_) if isinstance(k_, ClassInfo) and e.attr in k_.assigns), None)
+            elif isinstance(e, ast.Name) and self.cls is not None and e.id in self.cls.assigns and self.repo.module_member(self.mod.name, e.id) is None:
+                owner_cls = self.cls
+            v_mod = Folder(self.env, self.repo, owner, owner_cls, self.hook).fold(r)
             if not isinstance(v_mod, (int, float, str, bytes, bool, Fraction, type(None), Abstract)) or type(v_mod).__name__ in ("AObj",):
                 # a module-level object with an identity (a container, a sentinel `object()`, a compiled pattern, an instance) is
                 # ONE object for the life of the process: whoever changes it changes it for everyone after, and `x is SENTINEL`
@@ -889,9 +902,6 @@ class Folder:
         return self.mod
 
     def _call(self, e: ast.Call) -> Any:
-        for a_ in e.args:
-            if isinstance(a_, ast.GeneratorExp):
-                _DIRECT_ARGS.add(id(a_))
         if isinstance(e.func, ast.Attribute) and not isinstance(e.func.value, (ast.Name, ast.Constant)):
             once = self.__dict__.setdefault("_once", {})
             key = id(e.func.value)
@@ -953,6 +963,11 @@ class Folder:
                     return fv0.call(self, [self.fold(a) for a in args])
                 if type(fv0).__name__ == "_BoundMethod":
                     return fv0.call(self, [self.fold(a) for a in args], {k.arg: self.fold(k.value) for k in e.keywords if k.arg})
+                if type(fv0).__name__ == "AObj" and fv0._ctx_.repo.lookup_method(fv0._cls_, "__call__") is not None:
+                    # a field that holds an instance whose class defines __call__ (a handler object)
+                    return call_value(self, fv0, fold_starred(self, args), {k.arg: self.fold(k.value) for k in e.keywords if k.arg})
+                if isinstance(fv0, Abstract) and callable(fv0) and type(fv0).__name__ != "AObj":
+                    return call_value(self, fv0, fold_starred(self, args), {k.arg: self.fold(k.value) for k in e.keywords if k.arg})
                 if isinstance(fv0, (ClassInfo, _TypeOf, _Partial)) or type(fv0).__name__ == "FnRef":
                     # a field that holds a class / function of the repository (a factory stored on a record): called as a value
                     return call_value(self, fv0, fold_starred(self, args), {k.arg: self.fold(k.value) for k in e.keywords if k.arg})
